@@ -327,4 +327,196 @@ theorem datePathOf_injective {a b : Nat × Nat × Nat} (h : datePathOf a = dateP
   obtain ⟨h2, h3⟩ := sep_unique (dec_no_slash _) (dec_no_slash _) h
   exact Prod.ext (dec_injective h1) (Prod.ext (dec_injective h2) (dec_injective h3))
 
+/-! ### the calendar: successor day -/
+
+/-- length of year-of-era `y` (a year starting on 1 March): 366 iff the following civil year is leap -/
+def eraLen (y : Nat) : Nat :=
+  if (y + 1) % 4 = 0 ∧ ((y + 1) % 100 ≠ 0 ∨ (y + 1) % 400 = 0) then 366 else 365
+
+theorem yearStart_succ (y : Nat) (h : y < 399) : yearStart (y + 1) = yearStart y + eraLen y := by
+  unfold yearStart eraLen
+  split <;> omega
+
+theorem yearStart_last : yearStart 399 + eraLen 399 = 146097 := by decide
+
+theorem yearStart_le (a b : Nat) (hab : a < b) (hb : b ≤ 399) : yearStart a + eraLen a ≤ yearStart b := by
+  induction b with
+  | zero => omega
+  | succ b ih =>
+    rw [yearStart_succ b (by omega)]
+    by_cases h : a = b
+    · subst h; omega
+    · have := ih (by omega) (by omega)
+      have : 365 ≤ eraLen b := by unfold eraLen; split <;> omega
+      omega
+
+theorem yoe_spec' (doe : Nat) (h : doe < 146097) :
+    yoeOf doe < 400 ∧ yearStart (yoeOf doe) ≤ doe ∧ doe < yearStart (yoeOf doe) + eraLen (yoeOf doe) := by
+  obtain ⟨c, q, t, hc, hq, ht, hqt, hd⟩ := doe_decomp doe h
+  obtain ⟨yy, h3, h5, h4, hy, hs⟩ := yoe_doy doe c q t hc hq ht hqt hd
+  refine ⟨by omega, by omega, ?_⟩
+  rw [hy] at hs ⊢
+  unfold eraLen
+  split
+  · rcases h5 with h5 | h5 <;> omega
+  · rename_i hl
+    rcases h5 with h5 | h5
+    · subst h5
+      -- yy = 3: the year is long unless q = 24 and c < 3
+      by_cases hq24 : q = 24
+      · by_cases hc3 : c < 3
+        · have := hqt hq24 hc3; omega
+        · exfalso; apply hl; subst hq24; have : c = 3 := by omega
+          subst this; decide
+      · exfalso; apply hl; omega
+    · omega
+
+theorem yoe_unique (doe y : Nat) (h : doe < 146097) (hy : y < 400)
+    (h1 : yearStart y ≤ doe) (h2 : doe < yearStart y + eraLen y) : yoeOf doe = y := by
+  obtain ⟨g1, g2, g3⟩ := yoe_spec' doe h
+  rcases Nat.lt_trichotomy (yoeOf doe) y with hlt | heq | hgt
+  · have := yearStart_le (yoeOf doe) y hlt (by omega); omega
+  · exact heq
+  · have := yearStart_le y (yoeOf doe) hgt (by omega); omega
+
+/-- days in month `m` of a March-based year of length `len` (February is its last month) -/
+def dimM (len m : Nat) : Nat :=
+  if m = 2 then len - 337 else if m = 4 ∨ m = 6 ∨ m = 9 ∨ m = 11 then 30 else 31
+
+def mdOf (mp doy : Nat) : Nat × Nat := (if mp < 10 then mp + 3 else mp - 9, doy - (153 * mp + 2) / 5 + 1)
+
+theorem mdOfDoy_eq (doy : Nat) : mdOfDoy doy = mdOf ((5 * doy + 2) / 153) doy := rfl
+
+theorem mdOfDoy_zero : mdOfDoy 0 = (3, 1) := by decide
+
+theorem mdOfDoy_last (len : Nat) (hlen : len = 365 ∨ len = 366) : mdOfDoy (len - 1) = (2, len - 337) := by
+  rcases hlen with h | h <;> subst h <;> decide
+
+theorem mdOf_succ (doy len mp mq : Nat) (hlen : len = 365 ∨ len = 366) (h : doy + 1 < len)
+    (hmp : mp = (5 * doy + 2) / 153) (hmq : mq = (5 * (doy + 1) + 2) / 153) :
+    mdOf mq (doy + 1) =
+      if (mdOf mp doy).2 < dimM len (mdOf mp doy).1 then ((mdOf mp doy).1, (mdOf mp doy).2 + 1)
+      else (if (mdOf mp doy).1 = 12 then 1 else (mdOf mp doy).1 + 1, 1) := by
+  have hmp11 : mp ≤ 11 := by omega
+  have hq : mq = mp ∨ mq = mp + 1 := by omega
+  have hcases : mp = 0 ∨ mp = 1 ∨ mp = 2 ∨ mp = 3 ∨ mp = 4 ∨ mp = 5 ∨ mp = 6 ∨ mp = 7 ∨ mp = 8 ∨ mp = 9 ∨ mp = 10 ∨ mp = 11 := by omega
+  rcases hcases with e | e | e | e | e | e | e | e | e | e | e | e <;> subst e <;>
+    rcases hq with e' | e' <;> subst e' <;> simp only [mdOf, dimM] <;> simp <;> (try split) <;> (try (apply Prod.ext <;> simp)) <;> omega
+
+theorem mdOf_le_dim (doy len mp : Nat) (hlen : len = 365 ∨ len = 366) (h : doy < len)
+    (hmp : mp = (5 * doy + 2) / 153) : (mdOf mp doy).2 ≤ dimM len (mdOf mp doy).1 := by
+  have hmp11 : mp ≤ 11 := by omega
+  have hcases : mp = 0 ∨ mp = 1 ∨ mp = 2 ∨ mp = 3 ∨ mp = 4 ∨ mp = 5 ∨ mp = 6 ∨ mp = 7 ∨ mp = 8 ∨ mp = 9 ∨ mp = 10 ∨ mp = 11 := by omega
+  rcases hcases with e | e | e | e | e | e | e | e | e | e | e | e <;> subst e <;>
+    simp only [mdOf, dimM] <;> simp <;> omega
+
+/-- civil date from a March-based year and the (month, day) of the day in it -/
+def civOf (Y : Nat) (md : Nat × Nat) : Nat × Nat × Nat := (if md.1 ≤ 2 then Y + 1 else Y, md.1, md.2)
+
+theorem yearEnd_le (y : Nat) (hy : y < 400) : yearStart y + eraLen y ≤ 146097 := by
+  by_cases h : y = 399
+  · subst h; exact Nat.le_of_eq yearStart_last
+  · have := yearStart_le y 399 (by omega) (by omega)
+    have h2 := yearStart_last
+    omega
+
+theorem civil_of_nf (z era y doy : Nat) (hy : y < 400) (hd : doy < eraLen y)
+    (hz : z + 719468 = era * 146097 + (yearStart y + doy)) :
+    civilFromDays z = civOf (y + era * 400) (mdOfDoy doy) := by
+  have hle := yearEnd_le y hy
+  have h1 : (z + 719468) / 146097 = era := by omega
+  have h2 : (z + 719468) % 146097 = yearStart y + doy := by omega
+  have h3 : yoeOf (yearStart y + doy) = y := yoe_unique _ y (by omega) hy (by omega) (by omega)
+  rw [civilFromDays_eq, h1, h2, h3]
+  have h4 : yearStart y + doy - yearStart y = doy := by omega
+  rw [h4]
+  rfl
+
+theorem civil_nf (z : Nat) : ∃ era y doy, y < 400 ∧ doy < eraLen y ∧
+    z + 719468 = era * 146097 + (yearStart y + doy) := by
+  have hdoe : (z + 719468) % 146097 < 146097 := Nat.mod_lt _ (by omega)
+  obtain ⟨g1, g2, g3⟩ := yoe_spec' _ hdoe
+  refine ⟨(z + 719468) / 146097, yoeOf ((z + 719468) % 146097), (z + 719468) % 146097 - yearStart (yoeOf ((z + 719468) % 146097)), g1, by omega, ?_⟩
+  have := Nat.div_add_mod (z + 719468) 146097
+  omega
+
+/-- in the civil year that contains month `m` of March-based year `y + 400*era`, month `m` has `dimM` days -/
+theorem daysInMonth_civ (y era m : Nat) (hm1 : 1 ≤ m) (hm : m ≤ 12) :
+    daysInMonth (if m ≤ 2 then y + era * 400 + 1 else y + era * 400) m = dimM (eraLen y) m := by
+  unfold daysInMonth dimM
+  by_cases h2 : m = 2
+  · subst h2
+    simp only [if_true, Nat.le_refl]
+    unfold isLeap eraLen
+    have e4 : (y + era * 400 + 1) % 4 = (y + 1) % 4 := by omega
+    have e100 : (y + era * 400 + 1) % 100 = (y + 1) % 100 := by omega
+    have e400 : (y + era * 400 + 1) % 400 = (y + 1) % 400 := by omega
+    simp only [e4, e100, e400, decide_eq_true_eq]
+    split <;> rfl
+  · simp [h2]
+
+theorem civil_succ_lemma (z : Nat) : civilFromDays (z + 1) = nextDay (civilFromDays z) := by
+  obtain ⟨era, y, doy, hy, hd, hz⟩ := civil_nf z
+  rw [civil_of_nf z era y doy hy hd hz]
+  have hlen : eraLen y = 365 ∨ eraLen y = 366 := by unfold eraLen; split <;> simp
+  have hdoy366 : doy < 366 := by omega
+  obtain ⟨m1, m12, d1, d31, hmd⟩ := mdOfDoy_spec doy hdoy366
+  have hdim := daysInMonth_civ y era (mdOfDoy doy).1 m1 m12
+  by_cases hlast : doy + 1 < eraLen y
+  · -- same March-based year
+    rw [civil_of_nf (z + 1) era y (doy + 1) hy hlast (by omega)]
+    have hs := mdOf_succ doy (eraLen y) _ _ hlen hlast rfl rfl
+    rw [← mdOfDoy_eq, ← mdOfDoy_eq] at hs
+    rw [hs]
+    unfold nextDay civOf
+    simp only []
+    rw [hdim]
+    generalize mdOfDoy doy = md at *
+    by_cases hlt : md.2 < dimM (eraLen y) md.1
+    · simp only [hlt, if_true]
+    · simp only [hlt, if_false]
+      -- the last day of a month that is not February (February's last day is the year's last day)
+      have hne2 : md.1 ≠ 2 := by
+        intro e
+        unfold dimM at hlt
+        rw [e] at hlt hmd
+        simp at hlt hmd
+        omega
+      by_cases h12 : md.1 = 12
+      · simp [h12]
+      · have : md.1 < 12 := by omega
+        simp only [h12, this, if_true, if_false]
+        by_cases hle : md.1 ≤ 2
+        · have : md.1 = 1 := by omega
+          simp [this]
+        · have : ¬ md.1 + 1 ≤ 2 := by omega
+          simp [hle, this]
+  · -- last day of the March-based year: 28/29 February
+    have hd' : doy = eraLen y - 1 := by omega
+    have hmdl := mdOfDoy_last (eraLen y) hlen
+    rw [← hd'] at hmdl
+    have hnext : civilFromDays (z + 1) = civOf (y + era * 400 + 1) (3, 1) := by
+      by_cases h399 : y = 399
+      · subst h399
+        have h0 : (0 : Nat) < eraLen 0 := by decide
+        have := civil_of_nf (z + 1) (era + 1) 0 0 (by omega) h0 (by
+          have := yearStart_last
+          have : yearStart 0 = 0 := by decide
+          omega)
+        rw [this, mdOfDoy_zero]
+        congr 1
+        omega
+      · have hpos : 0 < eraLen (y + 1) := by unfold eraLen; split <;> omega
+        have := civil_of_nf (z + 1) era (y + 1) 0 (by omega) hpos (by
+          have := yearStart_succ y (by omega)
+          omega)
+        rw [this, mdOfDoy_zero]
+        congr 1
+        omega
+    rw [hnext]
+    unfold nextDay civOf
+    simp only []
+    rw [hdim, hmdl]
+    simp [dimM]
+
 end YgmVerif.Out
